@@ -14,4 +14,7 @@ MCTarget4 == MCTarget
 \* fifth: the first topology inside a running game with an unlimited ball save (eject_delay 2 s) and add-a-ball requests
 MCCap5 == MCCap
 MCTarget5 == MCTarget
+\* sixth: trough and a holding lock both feed the one-slot launcher; held balls serve requests when the trough is empty
+MCCap6 == MCCap3
+MCTarget6 == MCTarget2
 =============================================================================
